@@ -277,6 +277,11 @@ def own_position_only(c, da, result, pos, extra=None, recompute=None):
         other.values[...] = noise
         other.loc[{d: other[d].values[pos[d]] for d in V.pos_dims}] = keep
         r2 = recompute(other)
+        zeroed = other.copy(deep=True)
+        zeroed.values[...] = 0.0
+        zeroed.loc[{d: zeroed[d].values[pos[d]] for d in V.pos_dims}] = keep
+        r4 = recompute(zeroed)
+        c.ensure_eq("reads_only_own_position", c.value(r4, dict(pos, **(extra or {}))), c.value(result, dict(pos, **(extra or {}))))
         single = da.isel({d: [pos[d]] for d in V.pos_dims})
         r3 = recompute(single)
         zero = {d: 0 for d in V.pos_dims}
